@@ -225,8 +225,12 @@ def runOp (K : Keys) (committedKeys : String) (lite : Bool) (sess : Option Sessi
   let toks := line.splitOn " "
   let op := toks.headD ""
   let arg (i : Nat) : String := toks.getD i ""
+  -- a dumped position that violates C09's list (possible only after a defect of the implementation itself) is marked
+  -- `vp=0`: the properties quantify over valid positions, so M1-vs-M0 differences there are not model disagreements
   let withBoard (f : Board → String) : String :=
-    match boardOfRaw (arg 1) with | some b => f b | none => "bad-raw ## "
+    match boardOfRaw (arg 1) with
+    | some b => if Spec.ValidPos (absPos b) then f b else "vp=0 " ++ f b
+    | none => "bad-raw ## "
   match op with
   | "zob" => (sess, s!"keys={committedKeys} ## ")
   | "legal" => (sess, withBoard fun b =>
